@@ -129,6 +129,17 @@ def main(argv):
         ctx.PX = None
         ctx._rec('ENGINE', 'fixture', 'VIOLATION', str(e)[-800:], None, 'ENGINE:fixture')
     mod = importlib.import_module('sa.props.' + pid.lower())
+    # a rule that never terminates must fail the check, not hang it (rules of one property re-run rules of others)
+    import signal
+
+    def _too_long(signum, frame):
+        raise RuntimeError('rule evaluation exceeded %d s' % limit)
+    limit = int(os.environ.get('VERIF_RULE_TIMEOUT', '900'))
+    try:
+        signal.signal(signal.SIGALRM, _too_long)
+        signal.alarm(limit)
+    except (ValueError, AttributeError):
+        pass
     try:
         from . import selftest
         selftest.run(ctx)
@@ -137,6 +148,10 @@ def main(argv):
         tb = traceback.format_exc()
         print(tb)
         ctx._rec('ENGINE', 'exception', 'VIOLATION', tb[-1500:], None, 'ENGINE:exception')
+    try:
+        signal.alarm(0)
+    except (ValueError, AttributeError):
+        pass
     if tier == 'thorough':
         try:
             from . import thorough
